@@ -64,7 +64,7 @@ let to_line c =
       let payload = string_of_bytes (encode_dump Valgen.fmt_g17 (LString (bs "v"))) in
       let dbs = List.sort_uniq compare (List.map fst c.pop) in
       C16.to_line { C16.tdb = -1; policy = "rewrite"; threshold = 1000000000; dbblack = c.fc.dbblack; dbwhite = c.fc.dbwhite; keyblack = c.fc.keyblack; keywhite = c.fc.keywhite;
-                    scancount = 5; tgt = []; note = "";
+                    scancount = 5; tgt = []; note = ""; keyfile = None;
                     src = List.map (fun db -> (db, [ List.filter_map (fun (d, k) -> if d = db then Some { C16.key = k; payload; pttl = -1; vanish = "-"; value = None } else None) c.pop ])) dbs }
   | Incr ->
       let cmds = ref [] and cur = ref (-1) in
